@@ -473,7 +473,9 @@ func cmdCheck(args []string) {
 		if len(st) > 0 {
 			cov["must_fail_corpus"] = st
 			for _, e := range st {
-				if !e.Caught {
+				if !e.Caught && strings.HasPrefix(e.Note, "the seeded change no longer applies") {
+					fmt.Printf("SELFTEST-STALE property=%s seed=%s (the seeded change no longer applies to the current tree: later commits rewrote the lines it changes; not run)\n", *prop, e.Seed)
+				} else if !e.Caught {
 					fmt.Printf("SELFTEST-MISS property=%s seed=%s (the check did not flag a change known to break the property; this is a weakness of the check, not a violation found in /repo)\n", *prop, e.Seed)
 				}
 			}
